@@ -3,7 +3,7 @@
 from .. import core, tree
 
 MOD = "mc.props.c15"
-KINDS = ("node", "user", "light", "weird", "falsy", "eqhash", "falsylight", "norepr")
+KINDS = ("node", "user", "light", "weird", "falsy", "eqhash", "falsylight", "norepr", "container")
 
 
 def expected(m, a, b):
@@ -124,7 +124,7 @@ def job_primed(kind, n, states):
                     for z in labels:
                         core.guard(t, "C15", {"engine": "E2", "module": MOD, "part": "primed", "kind": kind, "n": n,
                                               "witness": [list(x) for x in witness], "primed": list(primed), "history": [list(op)],
-                                              "start": y, "end": z}, run_primed, t, kind, n, witness, primed, (op,), y, z)
+                                              "start": y, "end": z}, run_primed, t, kind, n, witness, primed, (op,), y, z, _limit=10)
         t.obs((kind, key, "primed", t.c["evaluations"]))
     return t
 
